@@ -313,6 +313,21 @@ class SymExec:
             a = self.as_int(self.ev(args[0], env))
             b = self.as_int(self.ev(args[1], env))
             return ('tuple', [('int', f"(Int.fdiv {a} {b})"), ('int', f"(Int.fmod {a} {b})")])
+        if fn in ('np.clip', 'numpy.clip') and len(args) == 3 and not node.keywords:
+            # numpy.clip(a, lo, hi) = minimum(hi, maximum(a, lo))
+            vals = [self.ev(a, env) for a in args]
+            if any(v[0] == 'rat' for v in vals):
+                x, lo, hi = (self.as_rat(v) for v in vals)
+                return ('rat', f"(min (max {x} {lo}) {hi})")
+            x, lo, hi = (self.as_int(v) for v in vals)
+            return ('int', f"(min (max {x} {lo}) {hi})")
+        if isinstance(node.func, ast.Attribute) and node.func.attr == 'is_integer' and not args:
+            v = self.ev(node.func.value, env)
+            if v[0] == 'rat':
+                x = self.fresh('t', 'rat', v[1])[1]
+                return ('bool', f"({x} == ((Rat.floor {x} : Int) : Rat))")
+            if v[0] in ('int', 'bool'):
+                return ('bool', 'true')
         raise Unsupported(f"call {fn}")
 
     # ---- statements; pc is a Lean Bool expr
